@@ -15,7 +15,7 @@ from bctmc.runner import guarded
 from bctmc.tally import Tally
 
 PROPERTY = 'C15'
-RULE = ('the structured 7-10 node family of bctmc/named.py and all undirected graphs n<=5 (quick) / n<=6 (thorough) x k=0..n; all digraphs n<=4 x k=0..2n-1 '
+RULE = ('the structured 7-10 node family of bctmc/named.py and all undirected graphs n<=6 x k=0..n; all digraphs n<=4 x k=0..2n-1 '
         '(n<=3 and 4-node digraphs in quick); symmetric weights {1,2,3}, {0.5,1,1.5} and the non-dyadic {0.3,0.6} on 4 nodes x s on a 0.25 '
         'grid up to max strength+0.25; coreness on every graph; non-trivial = (graph,k) whose peeling needs >= 2 '
         'rounds (removing one node drags others below the bound)')
@@ -25,7 +25,7 @@ ASSUMPTIONS = ['float64 0/1 (or listed weight) matrices with empty diagonal',
 
 def plan(ctx):
     units = []
-    for n in range(1, (6 if ctx.thorough else 5) + 1):
+    for n in range(1, 6 + 1):
         tot = ss.und_count(n, (0, 1))
         for (a, b) in ss.ranges(tot, 128 if n >= 5 else 2):
             units.append(('und', n, (0, 1), a, b))
